@@ -2,7 +2,7 @@
 from .. import env, gdbsim, pluginmachine as pm, histgen, session, wire
 from ..runner import Prop, Stage, Result
 
-WEIGHTS = dict(delete=12, bind=10, message=50, server_event=6, sync=14, enum=4, title=2, retype=2)
+WEIGHTS = dict(delete=10, bind=10, message=42, server_event=6, sync=14, enum=4, title=6, retype=2, appid=10)
 
 
 class Machine(Stage):
@@ -10,7 +10,7 @@ class Machine(Stage):
     kind = 'machine'
 
     def examples(self, tier):
-        return 300 if tier == 'quick' else 14 * 2500
+        return 450 if tier == 'quick' else 14 * 2500
 
     def steps(self, tier):
         return 40 if tier == 'quick' else 80
